@@ -1470,3 +1470,108 @@ pub enum SortKind {
     /// Items that cannot be moved - would be skipped and not included in any sorted segment.
     Immovable,
 }
+
+/// Verification hook (add-only, compiled only with `--cfg cairo_verif`): exposes the comment
+/// re-wrapping function and a dump of the `LineBuilder` tree handed to the line breaker, together
+/// with the string the line breaker produces from it.
+#[cfg(cairo_verif)]
+pub mod verif_hook {
+    use salsa::Database;
+
+    use super::{
+        BreakLinePointIndentation, FormatterImpl, LineBuilder, LineComponent, SyntaxNode,
+        format_leading_comment as format_leading_comment_impl,
+    };
+    use crate::FormatterConfig;
+
+    /// `format_leading_comment` as is.
+    pub fn format_leading_comment(
+        content: &str,
+        cur_indent: usize,
+        max_line_width: usize,
+    ) -> String {
+        format_leading_comment_impl(content, cur_indent, max_line_width)
+    }
+
+    fn json_str(s: &str, out: &mut String) {
+        out.push('"');
+        for c in s.chars() {
+            match c {
+                '"' => out.push_str("\\\""),
+                '\\' => out.push_str("\\\\"),
+                c if (c as u32) < 0x20 => out.push_str(&format!("\\u{:04x}", c as u32)),
+                c => out.push(c),
+            }
+        }
+        out.push('"');
+    }
+
+    fn dump_components(cs: &[LineComponent], out: &mut String) {
+        out.push('[');
+        for (i, c) in cs.iter().enumerate() {
+            if i > 0 {
+                out.push(',');
+            }
+            match c {
+                LineComponent::Token(s) => {
+                    out.push_str("[\"T\",");
+                    json_str(s, out);
+                    out.push(']');
+                }
+                LineComponent::ProtectedZone { builder, precedence } => {
+                    out.push_str(&format!("[\"Z\",{precedence},"));
+                    dump_builder(builder, out);
+                    out.push(']');
+                }
+                LineComponent::Space => out.push_str("[\"S\"]"),
+                LineComponent::Indent(n) => out.push_str(&format!("[\"I\",{n}]")),
+                LineComponent::BreakLinePoint(p) => {
+                    let ind = match p.break_indentation {
+                        BreakLinePointIndentation::Indented => 0,
+                        BreakLinePointIndentation::IndentedWithTail => 1,
+                        BreakLinePointIndentation::NotIndented => 2,
+                    };
+                    out.push_str(&format!(
+                        "[\"B\",{},{},{},{},{},{},{}]",
+                        p.is_empty_line_breakpoint,
+                        p.precedence,
+                        ind,
+                        p.is_optional,
+                        p.space_if_not_broken,
+                        p.is_single_breakpoint,
+                        p.is_comma_if_broken
+                    ));
+                }
+                LineComponent::Comment { content, is_trailing } => {
+                    out.push_str("[\"C\",");
+                    json_str(content, out);
+                    out.push_str(&format!(",{is_trailing}]"));
+                }
+            }
+        }
+        out.push(']');
+    }
+
+    fn dump_builder(b: &LineBuilder, out: &mut String) {
+        out.push_str("{\"children\":");
+        dump_components(&b.children, out);
+        out.push_str(&format!(",\"is_open\":{},\"pending\":", b.is_open));
+        dump_components(&b.pending_break_line_points, out);
+        out.push('}');
+    }
+
+    /// Runs the tree walk of `get_formatted_string` and returns the `LineBuilder` tree it hands
+    /// to `build` (as JSON) and the string `build` makes of it.
+    pub fn line_tree_and_output(
+        db: &dyn Database,
+        syntax_root: &SyntaxNode<'_>,
+        config: FormatterConfig,
+    ) -> (String, String) {
+        let (max_line_length, tab_size) = (config.max_line_length, config.tab_size);
+        let mut formatter = FormatterImpl::new(db, config);
+        formatter.format_node(syntax_root);
+        let mut tree = String::new();
+        dump_builder(&formatter.line_state.line_buffer, &mut tree);
+        (tree, formatter.line_state.line_buffer.build(max_line_length, tab_size))
+    }
+}
